@@ -206,6 +206,7 @@ struct Options {
     bool        verbose = false;
     bool        print_plan = false;
     bool        survey = false;     // development aid: count every violation key of every property, never stop, never shrink
+    std::string hash_list;          // development aid: write "index hash" of every run, sorted by index (determinism self test)
     std::string minimise;           // development aid (with --replay): shrink the plan while a violation whose "property/key" contains this text persists, print it
     std::uint64_t index = 0;
     std::vector< Known > known;
@@ -671,6 +672,7 @@ int sim_main( int argc, char** argv, const Harness& h )
         else if ( a == "--print-plan" ) o.print_plan = true;
         else if ( a == "--survey" ) o.survey = true;
         else if ( a == "--minimise" ) o.minimise = val();
+        else if ( a == "--hash-list" ) o.hash_list = val();
         else if ( a == "--index" ) o.index = std::strtoull( val().c_str(), nullptr, 10 );
         else if ( a == "--known" )
         {
@@ -746,6 +748,7 @@ int sim_main( int argc, char** argv, const Harness& h )
     std::vector< std::uint64_t > crashed_runs;
     int fatal = 0;
 
+    std::map< std::uint64_t, std::uint64_t > all_hashes;
     auto handle_line = [&]( Slot& s, const std::string& line ) {
         const char* p = line.c_str();
         switch ( p[ 0 ] )
@@ -757,6 +760,7 @@ int sim_main( int argc, char** argv, const Harness& h )
             std::uint64_t hash = std::strtoull( e, &e, 10 );
             int nt = std::atoi( e );
             ++evaluations;
+            if ( !o.hash_list.empty() ) all_hashes[ idx ] = hash;
             s.has_started = false;
             if ( nt )
             {
@@ -857,6 +861,11 @@ int sim_main( int argc, char** argv, const Harness& h )
     }
     for ( auto& s : slots )
         if ( s.fd >= 0 ) { kill( s.pid, SIGKILL ); close( s.fd ); waitpid( s.pid, nullptr, 0 ); s.fd = -1; }
+    if ( !o.hash_list.empty() )
+    {
+        std::ofstream hl( o.hash_list );
+        for ( const auto& h : all_hashes ) hl << h.first << ' ' << h.second << '\n';
+    }
 
     int exit_code = 0;
     std::vector< std::string > violation_lines, info_lines;
